@@ -2,6 +2,7 @@
 from __future__ import annotations
 
 import ast
+import re
 import os
 from typing import Any, Dict, List, Optional, Tuple
 
@@ -239,9 +240,49 @@ def _stackoverflow(check: Check, cf: ConstFolder):
              f'vocabulary ids are shifted past the reserved ids {reserved}')
 
 
+def _metric_tables(check: Check):
+  """The two language models evaluate the same named quantities: a metric that both tables contain is configured the same way
+  in terms of roles (which of pad / eos / oov it masks or looks for)."""
+  repo = check.repo
+  tables = {}
+  for modname in (f'{MD}.shakespeare', f'{MD}.stackoverflow'):
+    md = repo.func(modname, 'create_lstm_model')
+    ff = FuncFlow.of(repo, md)
+    roles, _ = model_roles(repo, md)
+    back = {v.id: k.upper() for k, v in roles.items() if isinstance(v, ast.Name)}
+    tab = {}
+    for x in ast.walk(md.node):
+      if isinstance(x, ast.Dict) and x.keys and all(isinstance(k, ast.Constant) and isinstance(k.value, str) for k in x.keys) and any(
+          isinstance(v, ast.Call) and txt(v.func).startswith('metrics.') for v in x.values):
+        for k, v in zip(x.keys, x.values):
+          if not isinstance(v, ast.Call):
+            continue
+          args = []
+          for name, a in sorted(bound_args(ff, v).items()):
+            if name == 'logits_mask':
+              args.append((name, 'MASK'))
+              continue
+            t = ast.unparse(a)
+            for nm, role in back.items():
+              t = re.sub(r'\b' + re.escape(nm) + r'\b', role, t)
+            args.append((name, t))
+          tab[k.value] = (txt(v.func), tuple(args), v)
+    tables[modname] = (md, tab)
+  (ma, ta), (mb, tb) = tables[f'{MD}.shakespeare'], tables[f'{MD}.stackoverflow']
+  common = sorted(set(ta) & set(tb))
+  for k in common:
+    same_cfg = ta[k][:2] == tb[k][:2]
+    check.ob('R-SIB.metrics', mb, f"'{k}': {ta[k][0]}", same_cfg,
+             f"both language models report '{k}' with the same configuration in terms of roles (shakespeare: {dict(ta[k][1])}, "
+             f"stackoverflow: {dict(tb[k][1])}); e.g. a token count that also masks EOS no longer counts the labels the tokenizer emits",
+             node=tb[k][2])
+  check.floor('R-SIB.metrics', 'metrics reported by both language models', len(common), 6)
+
+
 def _metric_config(check: Check):
   """Metric / loss configuration of both language models uses the model's own special ids consistently."""
   repo = check.repo
+  _metric_tables(check)
   for modname in (f'{MD}.shakespeare', f'{MD}.stackoverflow'):
     md = repo.func(modname, 'create_lstm_model')
     ff = FuncFlow.of(repo, md)
@@ -342,6 +383,25 @@ def _cifar(check: Check):
     npx = any(isinstance(x, ast.Name) and any(isinstance(d.value, ast.Call) and ff.ext(d.value.func) == 'numpy.prod' and '[-3:]' in txt(
         d.value.args[0]) for d in ff.defs_for(x)) for x in ff.deep_walk(floor))
     check.ob('R-SIB.tf', fi, 'num_pixels = prod(image.shape[-3:])', npx, 'pixel count per image (height * width * channels)')
+    # ... of the image that is standardised, i.e. after cropping: the array whose shape is taken is the one whose mean / std are taken
+    p_img = fi.positional_params[0]
+    prod_calls = [c for _, c in ff.calls() if ff.ext(c.func) == 'numpy.prod' and c.args and '[-3:]' in txt(c.args[0])]
+    std_calls = [c for _, c in ff.calls() if ff.ext(c.func) == 'numpy.std' and c.args and isinstance(c.args[0], ast.Name)]
+    if prod_calls and std_calls:
+      src = next((x for x in ast.walk(prod_calls[0].args[0]) if isinstance(x, ast.Name)), None)
+      def shape_defs(nm, depth=4):
+        out = set()
+        for d in ff.defs_for(nm):
+          v = d.value
+          if depth and isinstance(v, ast.Call) and isinstance(v.func, ast.Attribute) and v.func.attr in ('astype', 'copy') and isinstance(v.func.value, ast.Name):
+            out |= shape_defs(v.func.value, depth - 1)   # dtype conversions keep the shape
+          else:
+            out.add(d)
+        return out
+      same_img = src is not None and shape_defs(src) == shape_defs(std_calls[0].args[0])
+      check.ob('R-SIB.tf', fi, f'{txt(prod_calls[0])[:50]} / {txt(std_calls[0])[:40]}', same_img,
+               'the pixel count is that of the cropped image being standardised (the count of the uncropped 32x32 image gives a floor '
+               'that is too small for low-contrast crops)', node=prod_calls[0])
   # mean/std over the three image axes, keepdims
   stats_ok = 0
   for _, c in ff.calls():
